@@ -723,7 +723,7 @@ class SpectrumEditScenario(Scenario):
             sid = 'S%d' % j
             self.new_spectrum(rng, -1, sid, events, models)
             sids.append(sid)
-        nsteps = rng.randint(4, 25)
+        nsteps = rng.randint(4, 25 * self.depth)
         asked = {sid: [] for sid in sids}      # queries already issued per spectrum
         for _ in range(nsteps):
             sid = rng.choice(sids)
